@@ -3,6 +3,7 @@ package an
 import (
 	"fmt"
 	"go/token"
+	"go/types"
 	"sort"
 	"strings"
 
@@ -51,6 +52,21 @@ type DecideSpec struct {
 	Ref      func(Val) string
 	Feasible func(Val) bool
 	MaxSteps int
+	// R, when set, is bound to the path's phi resolution during each
+	// interpretation so that matchers can resolve operands.
+	R *Resolver
+}
+
+// Resolver gives condition matchers access to the current path's phi
+// resolution.
+type Resolver struct{ f func(ssa.Value) ssa.Value }
+
+// Resolve maps a phi to the value it has on the current path.
+func (r *Resolver) Resolve(v ssa.Value) ssa.Value {
+	if r == nil || r.f == nil {
+		return v
+	}
+	return r.f(v)
 }
 
 // Row is one evaluated valuation.
@@ -127,8 +143,20 @@ func interpret(spec DecideSpec, val Val, pos func(token.Pos) string) (string, []
 	// phi resolution is with respect to the predecessor by which the phi's
 	// block was entered on this path
 	entered := map[*ssa.BasicBlock]*ssa.BasicBlock{}
+	// values stored on this path to field/local cells (no aliasing assumed)
+	mem := map[string]ssa.Value{}
 	resolve = func(v ssa.Value) ssa.Value {
 		for i := 0; i < 8; i++ {
+			if u, isLoad := v.(*ssa.UnOp); isLoad && u.Op == token.MUL {
+				switch u.X.(type) {
+				case *ssa.FieldAddr, *ssa.Alloc:
+					if sv, ok := mem[Canon(u.X)]; ok {
+						v = sv
+						continue
+					}
+				}
+				return v
+			}
 			p, ok := v.(*ssa.Phi)
 			if !ok {
 				return v
@@ -152,6 +180,36 @@ func interpret(spec DecideSpec, val Val, pos func(token.Pos) string) (string, []
 		}
 		return v
 	}
+	if spec.R != nil {
+		spec.R.f = resolve
+	}
+	evalBool := func(v ssa.Value) (string, bool) {
+		v = resolve(v)
+		neg := false
+		for {
+			u, ok := v.(*ssa.UnOp)
+			if !ok || u.Op != token.NOT {
+				break
+			}
+			neg = !neg
+			v = resolve(u.X)
+		}
+		if cb, ok := ConstBool(v); ok {
+			if cb != neg {
+				return "true", true
+			}
+			return "false", true
+		}
+		for _, m := range spec.Conds {
+			if ev, ok := m(v); ok {
+				if ev(val) != neg {
+					return "true", true
+				}
+				return "false", true
+			}
+		}
+		return "", false
+	}
 	visits := map[*ssa.BasicBlock]int{}
 	for step := 0; step < spec.MaxSteps; step++ {
 		visits[b]++
@@ -167,6 +225,11 @@ func interpret(spec DecideSpec, val Val, pos func(token.Pos) string) (string, []
 				}
 			}
 			switch t := in.(type) {
+			case *ssa.Store:
+				switch t.Addr.(type) {
+				case *ssa.FieldAddr, *ssa.Alloc:
+					mem[Canon(t.Addr)] = resolve(t.Val)
+				}
 			case *ssa.Return:
 				ret := ""
 				if spec.Ret != nil {
@@ -174,6 +237,12 @@ func interpret(spec DecideSpec, val Val, pos func(token.Pos) string) (string, []
 				} else {
 					var parts []string
 					for _, r := range t.Results {
+						if b, isB := r.Type().Underlying().(*types.Basic); isB && b.Kind() == types.Bool {
+							if s, ok := evalBool(r); ok {
+								parts = append(parts, s)
+								continue
+							}
+						}
 						parts = append(parts, CanonWith(resolve(r), func(p *ssa.Phi) ssa.Value {
 							x := resolve(p)
 							if x == ssa.Value(p) {
